@@ -87,6 +87,8 @@ type ScriptConn struct {
 	// what the peer receives is then not what was serialized for it.
 	mutBefore, mutAfter []byte
 	wdeadline           time.Time
+	// EOFWithData: the Read that hands out the last bytes of a finished stream returns them together with io.EOF
+	EOFWithData bool
 	// Addr, if set, is the remote address reported (several connections may report the same one)
 	Addr string
 	// CloseErr, if set, is what Close returns although the connection is closed all the same - as tls.Conn.Close does
@@ -188,6 +190,12 @@ func (c *ScriptConn) Read(p []byte) (int, error) {
 			n := copy(p, c.cur)
 			c.cur = c.cur[n:]
 			c.delivered += n
+			if c.EOFWithData && c.readEOF && len(c.cur) == 0 && len(c.queue) == 0 {
+				// the last bytes and the end of the stream in one Read, as the io.Reader contract allows
+				c.eofSeen = true
+				c.Log.Add(c.ID, "eof", "", c.delivered)
+				return n, io.EOF
+			}
 			return n, nil
 		}
 		if c.readEOF {
